@@ -236,6 +236,49 @@ pub fn run(cfg: &J) -> J {
         let k = json!({"c":"int","w":w,"neg": x < 0,"d": x.unsigned_abs().to_string().bytes().map(|b| J::from(b - b'0')).collect::<Vec<_>>()});
         check(&k, None, &mut bad, &mut trace, &mut evals);
     }
+    // float payloads: conversions from f32 / f64 preserve the value exactly (an f32 widens, it is not re-derived from its
+    // decimal form), and == against the same primitive holds in both operand orders; also integers against the float
+    // that as_f64 gives for them
+    let mut floats32: Vec<f32> = vec![0.1, 0.3, 3.14159, 1e10, f32::MAX, f32::MIN_POSITIVE, f32::EPSILON, 1e-45, 16777216.0, -0.0, 2.5, 1e-10, -0.7];
+    let mut floats64: Vec<f64> = vec![0.1, 0.3, 1e300, 5e-324, f64::MAX, f64::MIN_POSITIVE, 9007199254740993.0, -0.0, 2.5, 1e22, 1e23];
+    for _ in 0..cfg["random"].as_u64().unwrap_or(500).min(20000) {
+        let a = f32::from_bits(rng.gen());
+        if a.is_finite() {
+            floats32.push(a);
+        }
+        let b = f64::from_bits(rng.gen());
+        if b.is_finite() {
+            floats64.push(b);
+        }
+    }
+    for p in floats32 {
+        evals += 1;
+        let v = Value::from(p);
+        let ok = v.is_f64() && v.as_f64().map(|g| g.to_bits()) == Some(f64::from(p).to_bits()) && v == p && p == v && v == f64::from(p)
+            && Number::from(p).as_f64().map(|g| g.to_bits()) == Some(f64::from(p).to_bits());
+        if !ok {
+            bad.push(json!({"rule":"accessor","why":format!("Value::from({:?}f32) does not preserve the payload: as_f64 = {:?}", p, v.as_f64()),"k":{"c":"f32","f":format!("{:?}", p)}}));
+        }
+    }
+    for p in floats64 {
+        evals += 1;
+        let v = Value::from(p);
+        // against the nearest f32: equal only if the payload is that f32 exactly (no rounding of the payload to single precision)
+        let g = p as f32;
+        let near = (v == g) == (p == f64::from(g)) && (g == v) == (v == g);
+        let ok = near && v.is_f64() && v.as_f64().map(|g| g.to_bits()) == Some(p.to_bits()) && v == p && p == v && !v.is_i64() && !v.is_u64();
+        if !ok {
+            bad.push(json!({"rule":"accessor","why":format!("Value::from({:?}) does not preserve the payload: as_f64 = {:?}", p, v.as_f64()),"k":{"c":"f64","f":format!("{:?}", p)}}));
+        }
+    }
+    for n in [0i64, 1, -1, 3, -64, 255, 1 << 53, (1 << 53) + 1, i64::MAX, i64::MIN] {
+        evals += 1;
+        let v = Value::from(n);
+        let f = v.as_f64().unwrap_or(f64::NAN);
+        if !((v == f) && (f == v) && (v == f as f32) == (f64::from(f as f32) == f)) {
+            bad.push(json!({"rule":"compare","why":format!("integer {} against the float as_f64 gives ({:?})", n, f),"k":{"c":"int","w":"i64","n":n.to_string()}}));
+        }
+    }
     // Number::from_f64 rejects non-finite values
     if Number::from_f64(f64::NAN).is_some() || Number::from_f64(f64::INFINITY).is_some() || Number::from_f64(1.0).is_none() {
         bad.push(json!({"rule":"accessor","why":"Number::from_f64 must accept exactly the finite doubles","k":{"c":"float"}}));
